@@ -295,6 +295,11 @@ def idft2ReAtW (M N : Nat) (wM wN : Nat → Cx R) (G : Nat → Nat → Cx R) (n 
 def idft2ReAt (M N : Nat) (G : Nat → Nat → Cx R) (n m : Nat) : R :=
   idft2ReAtW M N (fun a => root M 1 (a : Int)) (fun a => root N 1 (a : Int)) G n m
 
+/-- `cc_real = real(ifft2(fft2(im_ref) * conj(fft2(im))))` exactly as the code evaluates it
+(defining DFT sums) -/
+def ccRealFFT (M N : Nat) (ref im : Nat → Nat → R) : Nat → Nat → R :=
+  idft2ReAt M N (ccF (dft2At M N ref) (dft2At M N im))
+
 /-- translating an image by an *integer* shift `(r, c)` (what the phase ramp does for integer
 shifts: `out[i, j] = im[(i - r) % M, (j - c) % N]`) -/
 def applyShift (M N : Nat) (im : Nat → Nat → R) (r c : Int) : Nat → Nat → R := rollImg M N im r c
